@@ -49,4 +49,9 @@ META = {
   'text': 'Theorems: the storage invariant SInv (every stored proposal is a verified PREPREPARE of that view\'s leader whose block matches its hash, every stored PREPARE is a verified one of a distinct non-leader member, a prepared flag is backed by a stored quorum certificate, every stored vote is a valid vote of a member for this height and view carrying its block iff it carries a proof) holds after startTerm and any sequence of deliveries and elections; from it: the VIEW_CHANGE sent on timeout by a prepared node carries a proof satisfying proof_spec for its prepared view plus the matching block (none if unprepared); the extractor never fails or panics; the NEW_VIEW of an elected node embeds exactly its stored votes, which pass the quorum test, proposes the block of a stored vote with maximal proof view, and requests a fresh block only if no stored vote has a proof. Tie: lockstep world engine with prepared nodes in many views, mixed vote sets, proof-without-block and delayed votes; Go monitors check each outgoing VIEW_CHANGE/NEW_VIEW.',
   'note': 'Trusted: Coq kernel, Term.v model, harness. "Highest valid prepared proof" is with respect to the stored (verified) votes.',
  },
+ 'C20': {
+  'technique': 'Coq proof (generic builder/reader round trip by induction over the field list, instantiated to the lean-helix schemas) + byte-for-byte correspondence',
+  'text': 'Theorems: for the generic membuffers model (any schema of uint16/uint64/bytes/message/message-array fields, any values whose parts stay below 2^32 bytes) the reader\'s offset table on the builder\'s bytes equals the builder\'s, and every scalar, dynamic field and message array reads back exactly; instantiated to lean-helix: dec_msg (enc_msg m) = Some m for all five message kinds with arbitrary instance/height/view, ids, hashes, signatures, shares, proofs and votes; the same for block proofs; the signed header read out of a message, vote or block proof is byte-identical to the standalone encoding that was signed (so signatures keep verifying). Regression theorem: non-canonical encodings parse, so re-encoding is not the identity (F11). Tie: the Go builders\' bytes must equal the model\'s encoding byte for byte and the Go readers must agree with the model\'s reader on built, truncated, bit-flipped, size-mangled and random bytes.',
+  'note': 'Trusted: Coq kernel, Wire.v/WireLH.v models, harness. uint32 offset wrap-around and unsafe reads of membuffers on hostile size words are outside the wire model (cases where the Go reader panics are counted and skipped; C12 covers them with recover guards).',
+ },
 }
